@@ -1157,7 +1157,7 @@ def extend(o: Outcome, tier: str, pid: str) -> None:
 
     # ---- all TLC work in parallel
     jobs: dict = {}
-    parts = [2, 3] if pid == "C11" else [0, 1, 2, 3]
+    parts = [1, 3] if pid == "C11" else [0, 1, 2, 3]
     if thorough:
         gens = {"Gen3": dict(maxov=3, bases="BasesT", pj="PoolJ_Q", pd="PoolD_Q", dumps="DumpsT"),
                 "Gen2": dict(maxov=2, bases="BasesT", pj="PoolJ_T", pd="PoolD_T", dumps="DumpsT")}
@@ -1165,7 +1165,7 @@ def extend(o: Outcome, tier: str, pid: str) -> None:
         gens = {"Gen2": dict(maxov=2, bases="BasesQ", pj="PoolJ_Q", pd="PoolD_Q", dumps="DumpsQ")}
     nparts = 4 if thorough else 2
     if not thorough:
-        parts = [1] if pid == "C11" else [0, 1]   # 2 parts: part = classifier given or not
+        parts = [1] if pid == "C11" else [0, 1]   # 2 parts: part 1 = skip_extract_dump
     for gname, kw in gens.items():
         for p in parts:
             text = cfg("GSpec", "DevAsIs", parts=nparts, part=p, invs=INV_ASIS + ["GenInv"], **kw)
@@ -1394,7 +1394,7 @@ def selftest() -> int:
     rejected.append(("saved path altered", len(sb) - len(sbad0)))
     print(f"V: clean records: {len(bad0)} + {len(sbad0)} rejected; corrupted records, additional rejections: {rejected}")
     # G
-    text = cfg("GSpec", "DevAsIs", 1, "BasesQ", "PoolJ_Q", "PoolD_Q", "DumpsQ", parts=4, part=2, invs=["GenInv"])
+    text = cfg("GSpec", "DevAsIs", 1, "BasesQ", "PoolJ_Q", "PoolD_Q", "DumpsQ", parts=2, part=1, invs=["GenInv"])
     r = tlc("Gen_Pipeline", "gen.cfg", cfg_text=text, workers=1)
     text0 = cfg("GSpec", "DevAsIs", 0, "BasesQ", "PoolJ_Q", "PoolD_Q", "DumpsQ", parts=4, part=0, invs=["GenInv"])
     _G["tables"] = tlc("Gen_Pipeline", "gen.cfg", cfg_text=text0, workers=1).tagged("TABLES")[0]
